@@ -11,6 +11,7 @@ mod manifest_pack;
 mod missing;
 
 pub use self::jubako::Container;
+pub(crate) use self::jubako::check_pack_tail;
 pub use container_pack::ContainerPack;
 pub use content_pack::ContentPack;
 pub use directory_pack::{builder, layout};
